@@ -146,7 +146,10 @@ def empty_value_models():
 
 def perturb_events(ns, out, tid, seq, seed, model, inputs, rng=None):
     events = []
-    fresh = efx.build(ns, model)
+    try:
+        fresh = efx.build(ns, model)
+    except Exception:   # noqa: the model a history ended on cannot be built from scratch (an edit that should have been refused
+        return events, seq      # was accepted by the code under test): nothing to perturb -- the other clauses judge that history
     names = sorted(efx.reachable(model))
     snap0 = efx.snapshot(ns, fresh, names)
     nodes_f, _, _t = graph(ns, fresh)
